@@ -4,7 +4,8 @@
      server.Manifest.addDependency / roll                      python/eups/distrib/server.py
        -> [create_dependencies]: the ordered list of manifest entries (the install order of eups distrib)
      app.printProducts(dependencies=True)                      python/eups/app.py 100-170
-       -> [cli_lines]: the lines eups list --dependencies [--topological] [--depth EXPR] prints
+       -> [cli_lines]: the lines eups list --dependencies [--topological] [--depth EXPR] prints (with the repair
+          of proposed_fixes/C13-list-prints-every-version; the pinned behaviour is [cli_lines_pinned])
 
    Executable definitions only, layered on Model/Graph.v (a [world] of resolved table lines,
    [dependent_products] = Eups.getDependentProducts).
@@ -18,7 +19,8 @@
      - dependencies.sort(key = -depth): python list.sort is stable, so products of one depth keep the order of
        the listing (ascending depth, then name);
      - every listed product is looked up AGAIN, Eups.findProductFromVRO(name, version), under the preferred tags
-       of the Eups instance and the running flavor: found -> an entry with the version found and the optional
+       of the Eups instance, under the running flavor and then its fall-back flavors as the listing itself looks
+       (proposed_fixes/C13-createdeps-fallback-flavor; the pinned tree looked under the running flavor only): found -> an entry with the version found and the optional
        flag of the listing; not found -> skipped when optional, ProductNotFound when required;
      - productList.roll(): the entry of the top product goes from the front to the end.
    DefaultDistrib.createDependencies then fills table file, distribution id and install directory of every
@@ -131,8 +133,8 @@ Fixpoint mem_str (x : str) (l : list str) : bool :=
   | y :: r => if str_eqb x y then true else mem_str x r
   end.
 
-(* app.py 151-168 without -v: _msgs is keyed by the product NAME, so of the products of one name only the
-   first one met is printed (the name of the top product is not entered: another version of it is printed) *)
+(* app.py 151-168 without -v, as pinned: _msgs was keyed by the product NAME, so of the products of one name only
+   the first one met was printed (kept for the refutation example cli_one_line_per_name_refuted_pinned) *)
 Fixpoint first_of_name (seen : list str) (l : list entry) : list entry :=
   match l with
   | [] => []
@@ -141,15 +143,36 @@ Fixpoint first_of_name (seen : list str) (l : list entry) : list entry :=
       else x :: first_of_name (nname (enode x) :: seen) r
   end.
 
-(* the dependency lines printed for a listing: the depth test comes first, then the name test *)
-Definition cli_entries (f : depth_filter) (l : list entry) : list entry :=
-  first_of_name [] (filter (fun x => depth_ok f (edepth x)) l).
+Fixpoint mem_key (k : ukey) (l : list ukey) : bool :=
+  match l with
+  | [] => false
+  | y :: r => if ukey_eqb k y then true else mem_key k r
+  end.
+
+(* repaired (proposed_fixes/C13-list-prints-every-version): _msgs is keyed by (name, version) - a product is printed
+   once, two versions of one name are two products and both are printed.  The name of the top product is not
+   entered: a dependency on the product itself (a cycle through the root) is printed again *)
+Fixpoint first_of_product (seen : list ukey) (l : list entry) : list entry :=
+  match l with
+  | [] => []
+  | x :: r =>
+      if mem_key (ukey_of (enode x)) seen then first_of_product seen r
+      else x :: first_of_product (ukey_of (enode x) :: seen) r
+  end.
+
+(* the dependency lines printed for a listing: the depth test comes first, then the test of what was printed.
+   [fx] = true: the repaired code; false: the pinned tree *)
+Definition cli_entries_with (fx : bool) (f : depth_filter) (l : list entry) : list entry :=
+  let kept := filter (fun x => depth_ok f (edepth x)) l in
+  if fx then first_of_product [] kept else first_of_name [] kept.
+
+Definition cli_entries := cli_entries_with true.
 
 (* printProducts(dependencies=True, topological, checkCycles, depth) on the product [top]: the products
    printed, in order - the top product itself at depth 0.  With checkCycles and without topological the
    listing is computed (and may raise) but nothing is printed *)
-Definition cli_lines (fuel : nat) (w : world) (top : node) (topological check : bool) (f : depth_filter)
-  : res (list node) :=
+Definition cli_lines_with (fx : bool) (fuel : nat) (w : world) (top : node) (topological check : bool)
+           (f : depth_filter) : res (list node) :=
   match (if check then
            match topo_graph fuel w top with
            | Err x => Err x
@@ -162,6 +185,9 @@ Definition cli_lines (fuel : nat) (w : world) (top : node) (topological check : 
       | Err x => Err x
       | Ok l =>
           if check && negb topological then Ok []
-          else Ok ((if depth_ok f 0 then [top] else []) ++ map enode (cli_entries f l))
+          else Ok ((if depth_ok f 0 then [top] else []) ++ map enode (cli_entries_with fx f l))
       end
   end.
+
+Definition cli_lines := cli_lines_with true.
+Definition cli_lines_pinned := cli_lines_with false.
